@@ -258,9 +258,16 @@ def judge(world, out, rec_ckpts=None):
                     v("C11-CRASH-WEIGHTS", {"what": "a weights file that was never completely written was loaded",
                                             "kill_site": site, "path": ld.get("path")},
                       key=f"C11-CRASH-WEIGHTS|{site}")
-            if loads and gw not in allowed and world["scenario"]["sampler"] == "ns":
-                v("C11-CRASH-WEIGHTS", {"what": "restored flow weights equal no completely written weights",
-                                        "kill_site": site}, key=f"C11-CRASH-WEIGHTS|hash|{site}")
+            saved_hashes = {w.get("mhash") for w in wsaved}
+            trained_at_ckpt = want.get("flow_weights") in saved_hashes
+            if world["scenario"]["sampler"] == "ns" and gw not in allowed and (loads or trained_at_ckpt):
+                # the checkpoint holds a trained flow and complete weights exist on disk (current or .old):
+                # the resumed flow must be one of them, never a torn file and never a fresh initialisation
+                v("C11-CRASH-WEIGHTS", {"what": "restored flow weights equal no completely written weights"
+                                        + ("" if loads else " (no weights file was loaded although the checkpoint "
+                                           "holds a trained flow)"),
+                                        "kill_site": site, "loaded": [ld.get("path") for ld in loads]},
+                  key=f"C11-CRASH-WEIGHTS|hash|{site}")
     # CRASH-CONTINUE
     last = incs[-1]
     if world.get("stop_after_construct_from") is None:
